@@ -34,6 +34,7 @@ ASSUMPTIONS = [
     "when evaluating a filter/key on the whole member list would raise (missing attribute) the oracle accepts the exception "
     "or, for select, the result of the lazy evaluation; it always demands an unchanged state after an exception",
 ]
+ENUM_ALWAYS = True     # the targeted sweep of small shapes is cheap (~5 s): run it in the quick tier too
 NSLOTS = 6
 NATTR = 3
 E_ATTR, E_KEY, E_VALUE, E_INDEX = 1, 2, 3, 4
